@@ -1,6 +1,7 @@
 //! Harnesses / stub constructors hosted in `crate::hot_reloading::dependencies`. Overlay only.
 #![allow(dead_code, unused_imports, unused_variables)]
 use super::*;
+use crate::hot_reloading::records::Dependencies;
 use crate::amv::common::*;
 use crate::amv::{cover, nd};
 
@@ -55,3 +56,4 @@ pub(crate) fn contains_rec(_this: &DepsGraph, key: &OwnedDirEntry) -> bool {
         }
     }
 }
+
